@@ -285,6 +285,9 @@ class Run:
         for cls, what in known:
             if cls in self.known_seen:
                 print("KNOWN-FINDING: property=%s %s [class %s; e.g. %s]" % (self.prop, what, cls, str(self.known_seen[cls])[:160]))
+        for n, ok, d in broken[:6]:
+            # said on stderr as well, so that a log of the run shows WHAT no longer checks
+            sys.stderr.write("BROKEN-OBLIGATION property=%s %s :: %s\n" % (self.prop, n, " | ".join(str(d)[-900:].splitlines()[-12:])))
         for p, no_input in self.violations:
             print("VIOLATION property=%s replay=%s%s" % (self.prop, p, " no-failing-input-found" if no_input else ""))
         print("%s %s tier=%s seed=%d obligations=%d/%d evaluations=%d nontrivial=%d wall=%.1fs" % (
